@@ -1,6 +1,7 @@
 (* C20 Pooled write buffers: Get when a message starts, Put of that same buffer when it ends
    (Close, implicit close, error); none held between messages; never touched after release. *)
 Require Import WS.Base.Bytes WS.Base.Tape WS.Spec.Frame WS.Spec.WriterSpec WS.Model.Writer WS.Cases.WriterCase.
+Require WS.Cases.C02.
 
 (* Get and Put alternate, starting with Get *)
 Fixpoint alternates (held:bool) (es:list tev) : bool * bool :=
@@ -26,6 +27,29 @@ Fixpoint no_pool_in (prev:N) (l:list (cop * N)) (evs:list tev) : bool :=
        end) && no_pool_in cnt rest evs
   end.
 
+(* a message writer hands bytes to the transport only while the connection holds the buffer they
+   are in: no Write of a data-path operation after the Put (or before the Get) *)
+Fixpoint writes_while_held (held:bool) (es:list tev) : bool * bool :=
+  match es with
+  | [] => (true, held)
+  | TGet :: r => writes_while_held true r
+  | TPut :: r => writes_while_held false r
+  | (TWrite _ | TWriteFail _) :: r => if held then writes_while_held held r else (false, held)
+  | _ :: r => writes_while_held held r
+  end.
+Fixpoint held_after (held:bool) (es:list tev) : bool :=
+  match es with [] => held | TGet :: r => held_after true r | TPut :: r => held_after false r | _ :: r => held_after held r end.
+Fixpoint data_writes_held (held:bool) (prev:N) (l:list (cop * N)) (evs:list tev) : bool :=
+  match l with
+  | [] => true
+  | (o, cnt) :: rest =>
+      let mine := firstn (N.to_nat (cnt - prev)) (skipn (N.to_nat prev) evs) in
+      (match o with
+       | COp (WControl _ _ _) | CPrepared _ => true
+       | _ => fst (writes_while_held held mine)
+       end) && data_writes_held (held_after held mine) cnt rest evs
+  end.
+
 Definition spec (k:wcase) (o:wobs) : option (N * tape) :=
   if negb (w_pooled (wk_cfg k)) then
     if existsb (fun e => match e with TGet | TPut => true | _ => false end) (wo_evs o) then Some (80, []) else None
@@ -35,9 +59,13 @@ Definition spec (k:wcase) (o:wobs) : option (N * tape) :=
     else if negb (Bool.eqb held_end (wo_held o)) then Some (82, [])       (* buffer held without a Get, or released without a Put *)
     else if negb (wo_pool o =? 0) then Some (83, [wo_pool o])             (* released buffer touched / wrong buffer returned *)
     else if negb (no_pool_in 0 (combine (wk_ops k) (wo_cnt o)) (wo_evs o)) then Some (84, [])
-    else
+    else if negb (data_writes_held false 0 (combine (wk_ops k) (wo_cnt o)) (wo_evs o)) then Some (86, [])
+    else match (match wk_fail k with None => C02.spec_wire k o false | Some _ => None end) with
+    | Some (c, d) => Some (c, d)      (* the frames themselves: a buffer reused too early shows up as a corrupt wire *)
+    | None =>
       let a := expected_sent k o in
       let open_end := match a_open a with Some _ => true | None => false end in
-      if held_end && negb open_end then Some (85, []) else None.
+      if held_end && negb open_end then Some (85, []) else None
+    end.
 
 Definition judge : tape -> tape := judge_writer spec.
